@@ -63,10 +63,18 @@ class Roles:
         if not self.try_sync and self.sync_flag:
             self.try_sync = {n for n in prog.bodies if prog.bodies[n].kind != 'closure' and (prog.callees(n) & self.maintenance) and
                              any(('write', a_, f_) in eff.transitive(n) for a_, f_ in self.sync_flag)}
+        # ... or the set / reset are packaged as private helpers (`try_acquire()` / `release()`): the role is the function that calls them AND runs
+        # the maintenance
+        if self.try_sync and not any(prog.reachable_from([n]) & self.maintenance for n in self.try_sync):
+            lifted_ts = {(prog.bodies[c].root or c) if prog.bodies[c].kind == 'closure' else c for n in self.try_sync for c in prog.callers().get(n, ())}
+            lifted_ts = {c for c in lifted_ts if prog.reachable_from([c]) & self.maintenance}
+            if lifted_ts:
+                self.try_sync = lifted_ts
         # read-only list primitives, by what they read and return (names are not used)
         R_ = lambda nid, adt, f: ('read', adt, f) in d.get(nid, ())
         nowrite = lambda nid: not any(e[0] == 'write' for e in d.get(nid, ())) and not eff.mut_params.get(nid)
-        inlist = lambda nid: nid.startswith(('common::deque::', '<common::deque::')) or (prog.bodies[nid].root or '').startswith('common::deque::')
+        inlist = lambda nid: nid.startswith(('common::deque::', '<common::deque::')) or (prog.bodies[nid].root or '').startswith('common::deque::') or \
+            (nid.startswith('<') and ' as common::deque::' in nid.split('>::')[0])      # an extension trait of the list module on the node pointer
         ret = lambda nid: prog.bodies[prog.bodies[nid].root or nid].locals[0]['ty']['s'] if prog.bodies[nid].kind == 'closure' else prog.bodies[nid].locals[0]['ty']['s']
         roots = lambda S: {(prog.bodies[n].root or n) if prog.bodies[n].kind == 'closure' else n for n in S}
         # front accessors: read Deque.head (possibly in a closure), write nothing, return the node / a pointer to it
@@ -76,6 +84,10 @@ class Roles:
         # successor accessor: reads DeqNode.next, writes nothing, returns a node pointer
         self.succ = {n for n in prog.bodies if inlist(n) and R_(n, DEQNODE, 'next') and nowrite(n) and 'DeqNode' in prog.bodies[n].locals[0]['ty']['s']
                      and prog.bodies[n].kind != 'closure' and prog.bodies[n].argc == 1 and 'DeqNode' in prog.bodies[n].locals[1]['ty']['s']}
+        # ... or a thin wrapper of the list module around it (same signature shape, writes nothing)
+        self.succ |= {n for n in prog.bodies if inlist(n) and nowrite(n) and 'DeqNode' in prog.bodies[n].locals[0]['ty']['s'] and prog.bodies[n].kind != 'closure'
+                      and prog.bodies[n].argc == 1 and 'DeqNode' in prog.bodies[n].locals[1]['ty']['s'] and (prog.callees(n) & self.succ)
+                      and not any(e[0] == 'write' for x in prog.reachable_from([n]) for e in d.get(x, ()))}
         # ... or the next() of a node iterator of the list module that is built on it (yields the successor pointer, keeps it as its state)
         self.succ |= {n for n in prog.bodies if inlist(n) and prog.bodies[n].trait_item == 'std::iter::Iterator::next' and 'DeqNode' in prog.bodies[n].locals[0]['ty']['s']
                       and (prog.reachable_from([n]) & self.succ) and not any(e[0] == 'write' and e[1] in (DEQUE, DEQNODE) for x in prog.reachable_from([n]) for e in d.get(x, ()))}
@@ -91,6 +103,14 @@ class Roles:
         self.unlink_node = {n for n in self.unlink if n not in self.free}
         # a move primitive whose pointer surgery lives in private helpers of the list module: the role is the function the other modules call
         _root = lambda c: prog.bodies[c].root if prog.bodies[c].kind == 'closure' and prog.bodies[c].root else c
+        # a head / tail writer that the push / unlink / pop roles call as well is a shared LINK HELPER (`set_next_of(prev, next)`: neighbour or head),
+        # not a move primitive: the move role is then the list operation that calls such helpers, writes no length and is none of the other roles
+        link_helpers = {n for n in self.move if {_root(c) for c in prog.callers().get(n, ())} & (self.push | self.unlink | self.free)}
+        if link_helpers:
+            self.move = (self.move - link_helpers) | {c for c in prog.bodies if inlist(c) and prog.bodies[c].kind != 'closure' and c not in link_helpers and
+                                                      (prog.callees(c) & link_helpers) and c not in (self.push | self.unlink | self.free) and
+                                                      not ('write', DEQUE, 'len') in eff.transitive(c)}
+        self.link_helpers = link_helpers
         self.move_prims = set(self.move)      # the functions that write head / tail themselves
         for _ in range(3):
             lifted = False
